@@ -26,6 +26,7 @@ impl of the same name for the same view type **as it is** (sync `to_html()`, `hy
 | `hydrate`, `hydrateList`      | `RenderHtml::hydrate::<true>` per view type: strings.rs (step; one more `sibling()` when `NextChildAfterText`; cast to `Text`; the retained `str` is the *view's* string, the node's data is not read; the write for the empty string is `settle`), tuples.rs (`()` = `next_placeholder`, then `NextChild`), element/mod.rs (`inner_1`: `child()` if `FirstChild`, `sibling()` unless `Current`; cast to `Element` — the tag name is **not** compared; attributes; children only if `Ch::EXISTS && E::ESCAPE_CHILDREN`, from `FirstChild`; `inner_2`: `cursor.set(el)`, `NextChild`), iterators.rs (`Vec`: items, `next_placeholder`, `NextChild`), either.rs / any_view.rs (transparent) |
 | `settle`, `hydrateDom`, `hydrateDomOld`, `domA` | the `set_text` of the adopted `" "` of an empty string (repair of F-C05-1) and the DOM after hydration; `…Old` = before the repair |
 | `FragState`, `fragParent`, `fragParentOld`, `rebuildFrag`, `runFragHydrated`, `runFragCsr` | view/iterators.rs `StaticVec::{hydrate, rebuild}` for an element with children `pre…, StaticVec(items), post…` (F-C05-3 and its repair) |
+| `hydrateInert`, `htmlKeyedOld`, `htmlErrOld`, `hydratesOn` | html/mod.rs `InertElement::hydrate`; view/keyed.rs and view/error_boundary.rs `to_html_with_buf` before their repairs (regression witnesses) |
 | `Out.created`                 | nodes created by the walk (`native_dom::nodes_created()` before/after): no modelled branch creates one |
 | `IdTree`, `loadTree(s)`       | what the correspondence harness does with the parser's output: one native node per parsed node, created in document order and appended to its parent |
 | `real`, `realL`, `Realises`   | "`d` contains this forest of parsed nodes below `p`" (hypothesis of `C05_hydrate_succeeds`; established for `loadRoot` by `C05_load_realises`); `realB`, `realisesB`, `loadOK` are the executable forms the driver re-evaluates on every case |
@@ -676,7 +677,8 @@ structure FragRun where
 
 /-- `<tag>pre… items… post…</tag>` parsed into `ts`, loaded, hydrated, the fragment rebuilt with `itemsB`
 (`old` = before the repair of F-C05-3) -/
-def runFragHydrated (old : Bool) (ts : List HTree) (tag : String) (pre itemsA itemsB post : List View) : FragRun :=
+def runFragHydrated (old : Bool) (ts : List HTree) (tag : String) (pre itemsA itemsB post : List View)
+    (preB : List View := pre) (postB : List View := post) : FragRun :=
   let (d, root, _) := loadRoot ts
   let el := elemTarget d ⟨root, .firstChild⟩
   if !d.isElement el then ⟨.error (.element tag el), 0, (serializeKids d root).getD [], d.errs⟩ else
@@ -692,13 +694,14 @@ def runFragHydrated (old : Bool) (ts : List HTree) (tag : String) (pre itemsA it
       | .ok o3 =>
         let d := settleL o3.states (settleL o2.states (settleL o1.states d))
         -- rebuild: the tuple of children, left to right
-        let (d, _) := rebuildList false pre o1.states d
+        let (d, _) := rebuildList false preB o1.states d
         let (d, _) := rebuildFrag itemsB ⟨o2.states, parent⟩ d
-        let (d, _) := rebuildList false post o3.states d
+        let (d, _) := rebuildList false postB o3.states d
         ⟨.ok (), o1.created + o2.created + o3.created, (serializeKids d root).getD [], d.errs⟩
 
 /-- the client-built twin -/
-def runFragCsr (tag : String) (pre itemsA itemsB post : List View) : List Dom.Tree × List String :=
+def runFragCsr (tag : String) (pre itemsA itemsB post : List View)
+    (preB : List View := pre) (postB : List View := post) : List Dom.Tree × List String :=
   let (d, root) := ({} : Dom).createElement "div"
   let (d, el) := d.createElement tag
   let (d, s1) := buildList pre d
@@ -706,17 +709,56 @@ def runFragCsr (tag : String) (pre itemsA itemsB post : List View) : List Dom.Tr
   let (d, s3) := buildList post d
   let d := mountList s3 (mountList s2 (mountList s1 d el none) el none) el none
   let d := d.insertNode root el none
-  let (d, _) := rebuildList false pre s1 d
+  let (d, _) := rebuildList false preB s1 d
   let (d, _) := rebuildFrag itemsB ⟨s2, some el⟩ d
-  let (d, _) := rebuildList false post s3 d
+  let (d, _) := rebuildList false postB s3 d
   ((serializeKids d root).getD [], d.errs)
 
-def fragLikeCsr (old : Bool) (ts : List HTree) (tag : String) (pre itemsA itemsB post : List View) : Bool :=
-  let h := runFragHydrated old ts tag pre itemsA itemsB post
-  let c := runFragCsr tag pre itemsA itemsB post
+def fragLikeCsr (old : Bool) (ts : List HTree) (tag : String) (pre itemsA itemsB post : List View)
+    (preB : List View := pre) (postB : List View := post) : Bool :=
+  let h := runFragHydrated old ts tag pre itemsA itemsB post preB postB
+  let c := runFragCsr tag pre itemsA itemsB post preB postB
   match h.outcome with
   | .ok _ => h.created == 0 && h.errs.isEmpty && c.2.isEmpty && treesBeq (stripL h.kids) (stripL c.1)
   | .error _ => false
+
+/-! ## the other `RenderHtml` implementors
+
+They share `to_html` / `hydrate` / `rebuild` with a modelled constructor and are expressed through it
+(lean/Driver/C05.lean): `keyed(..)` = `Vec` of the item views (view/keyed.rs: items, then `<!>` and
+`NextChild` — since the repair `fix: a keyed list must thread the hydration position …`), `Result<T, E>` =
+`Option<T>` (view/error_boundary.rs: `Err` = the `<!>` of `()` — since the repair `fix: the marker a
+Result::Err renders …`), numbers / `Arc<str>` / `Cow<str>` = `String`, `EitherOf3` = `.either 3`, arrays =
+tuples, `OwnedView` = its content, a closure = an `AnyView` that is always replaced on rebuild.
+`InertElement` (html/mod.rs) = the static element it was rendered from, except that its `hydrate` does not
+walk the children (`hydrateInert`); `C05_inert_walk` shows that this leaves cursor and position the same. -/
+
+/-- `InertElement::hydrate`: the step of an element, the cast (`unwrap`), `NextChild` -/
+def hydrateInert (d : Dom) (c : Cur) : Except HydrationError Out :=
+  let n := elemTarget d c
+  if d.isElement n then .ok ⟨.elem n [] none, ⟨n, .nextChild⟩, 0⟩ else .error (.element "" n)
+
+def htmlKeyedOldL : List View → Position → Str
+  | [], _ => []
+  | v :: vs, pos => html true v pos ++ htmlKeyedOldL vs .nextChild
+
+/-- `Keyed::to_html_with_buf` **before the repair**: `NextChild` forced after every item, the position not
+touched by the trailing `<!>`; returns the HTML and the position it leaves -/
+def htmlKeyedOld (items : List View) (pos : Position) : Str × Position :=
+  (htmlKeyedOldL items pos ++ marker, if items.isEmpty then pos else .nextChild)
+
+/-- `Result::Err` in `to_html_with_buf` **before the repair**: `<!>`, position untouched -/
+def htmlErrOld (pos : Position) : Str × Position := (marker, pos)
+
+/-- does hydrating `v` against the DOM a browser builds from `s` succeed? -/
+def hydratesOn (s : Str) (v : View) : Bool :=
+  match Html.parse s with
+  | none => false
+  | some ts =>
+    let (d, root, _) := loadRoot ts
+    match hydrateFrom d root v with
+    | .ok _ => true
+    | .error _ => false
 
 /-! ## the two runs the property compares -/
 
